@@ -118,6 +118,10 @@ int main(int argc, char** argv)
         for (int j = 0; j < k; j++) {
           int c    = U(nc);
           double w = U(4) == 0 ? 0.05 : (U(4) == 0 ? R() : 1.0);
+          if (j > 0 && U(8) == 0)
+            w = 0.0; /* a valid boundary input: the variable crosses the constraint without consuming anything there (what
+                        ptask_L07 builds for the CPUs of communication-only parallel tasks); never the first element, so
+                        that every variable consumes something somewhere */
           s->expand(cs[c], x.v, w);
           bool found = false;
           for (auto& e : x.el)
